@@ -36,6 +36,7 @@ func runC02(t *testing.T, hc HistoryCase) (*h.Violation, h.Info) {
 	su := dbx.Super()
 	keep := &dbx.Retained{}
 	tgt := dbx.DBTarget{D: d, Keep: keep}
+	observer := dbx.Restricted(1, []model.Rule{{Action: []string{"info"}, Secret: []string{"a*", "dev/*"}}})
 	classes := make([]model.Class, 0, len(hc.Ops))
 	finish := func(v *h.Violation) (*h.Violation, h.Info) {
 		cs, nt := dbx.HistoryClasses(hc.Ops, classes)
@@ -54,15 +55,18 @@ func runC02(t *testing.T, hc HistoryCase) (*h.Violation, h.Info) {
 				outage = true
 			}
 		}
+		var early *dbx.Result
 		if outage {
-			away := dir + ".away"
-			if err := os.Rename(dir, away); err != nil {
-				return finish(h.V("harness", "rename: %v", err))
+			var got dbx.Result
+			held, err := dbx.Outage(dir, func() { got = tgt.Do(su, op, ver) })
+			if err != nil {
+				return finish(h.V("harness", "%v", err))
 			}
-			got := tgt.Do(su, op, ver)
-			if err := os.Rename(away, dir); err != nil {
-				return finish(h.V("harness", "rename back: %v", err))
-			}
+			early = &got
+			outage = held // (false: the code put the directory back itself - an ordinary call, judged below)
+		}
+		if outage {
+			got := *early
 			classes = append(classes, model.Other)
 			info.Class("call-failed-because-the-save-failed")
 			if got.Class == model.OK {
@@ -78,7 +82,12 @@ func runC02(t *testing.T, hc HistoryCase) (*h.Violation, h.Info) {
 			continue
 		}
 		want := tr.Expect(su.Rules, op, ver)
-		got := tgt.Do(su, op, ver)
+		var got dbx.Result
+		if early != nil {
+			got = *early
+		} else {
+			got = tgt.Do(su, op, ver)
+		}
 		classes = append(classes, want.Class)
 		if op.Kind == "activate" && op.VSel == "deleted" && len(tr.Deleted[op.Name]) > 0 {
 			info.Class("activate-of-a-deleted-version")
@@ -98,6 +107,14 @@ func runC02(t *testing.T, hc HistoryCase) (*h.Violation, h.Info) {
 		}
 		if hc.Sparse && i != len(hc.Ops)-1 {
 			continue // observing (list, info, get) is itself a sequence of calls: also run histories without it
+		}
+		if i%2 == 0 {
+			// another caller, who holds info on part of the names only, lists right before the superuser
+			// looks: each of them is shown its own part of the same state
+			lop := dbx.Op{Kind: "list"}
+			if diff := dbx.Compare(tgt.Do(observer, lop, 0), tr.Clone().Expect(observer.Rules, lop, 0)); diff != "" {
+				return finish(h.V("result-equals-model", "step %d %s: afterwards a caller holding info on \"a*\" and \"dev/*\" lists: %s", i, op, diff))
+			}
 		}
 		dump, err := dbx.Dump(d)
 		if err != nil {
@@ -120,6 +137,11 @@ var c02 = &h.Campaign[HistoryCase]{
 	Quick: 10000, Thorough: 1500000,
 	Gen: func(rt *rapid.T) HistoryCase {
 		hc := HistoryCase{Ops: dbx.GenHistory(rt, 1, 40), Sparse: rapid.Bool().Draw(rt, "sparse")}
+		if k := dbx.GenDeep(rt); k > 0 {
+			// a secret that has been rotated a great many times before the history proper starts
+			hc.Ops = append(dbx.DeepPuts("a", k), hc.Ops...)
+			hc.Sparse = true // (the full dump after every one of hundreds of calls adds nothing)
+		}
 		if rapid.IntRange(0, 3).Draw(rt, "withoutage") == 0 {
 			hc.FailSave = rapid.SliceOfN(rapid.IntRange(0, 20), 1, 4).Draw(rt, "failsave")
 		}
